@@ -260,6 +260,41 @@ fn emit_cases(sys: &Sys, it: &mut Interner, before: &Snapshot, after: &Snapshot,
             coq_list(&cmds.iter().map(|c| format!("({c})")).collect::<Vec<_>>()),
             ca_term(it, post), objects_term(it, &after.objs[h]), renew_term);
         let mut o = out.lock().unwrap();
+        // C03 "parent removed": once a CA has removed a parent (the revocation requests are sent as part of that
+        // command), that parent must no longer hold a certificate - issued or suspended - for any key of the class(es)
+        // the CA had under it
+        for v in pre["version"].as_u64().unwrap_or(0)..post["version"].as_u64().unwrap_or(0) {
+            let Some(sc) = stored_command(sys, h, v) else { continue };
+            for e in sc["effect"]["events"].as_array().cloned().unwrap_or_default() {
+                if e["type"] != "parent_removed" { continue }
+                let Some(parent) = e["parent"].as_str() else { continue };
+                let mut keys: Vec<String> = Vec::new();
+                for rc in pre["resources"].as_object().map(|m| m.values().collect::<Vec<_>>()).unwrap_or_default() {
+                    if rc["parent_handle"].as_str() != Some(parent) { continue }
+                    fn collect(v: &Value, out: &mut Vec<String>) {
+                        match v {
+                            Value::Object(m) => { if let (Some(k), true) = (m.get("key_id").and_then(|k| k.as_str()), m.contains_key("incoming_cert")) { out.push(k.to_string()); } for x in m.values() { collect(x, out); } }
+                            Value::Array(a) => for x in a { collect(x, out); },
+                            _ => {}
+                        }
+                    }
+                    collect(&rc["key_state"], &mut keys);
+                }
+                if let Some(Some(pca)) = after.ca.get(parent) {
+                    for rc in pca["resources"].as_object().map(|m| m.values().collect::<Vec<_>>()).unwrap_or_default() {
+                        for sect in ["issued", "suspended"] {
+                            if let Some(Value::Object(m)) = rc["certificates"].get(sect) {
+                                for k in &keys { if m.contains_key(k) {
+                                    let idx = o.w.total;
+                                    o.impl_failures.push(json!({"index": idx, "history": hist, "ca": h, "op": op_desc, "class": {"certificate_kept_after_parent_removed": true},
+                                        "what": format!("CA {h} removed parent {parent}; {parent} still has a {sect} certificate for its key {k}")}));
+                                } }
+                            }
+                        }
+                    }
+                }
+            }
+        }
         for what in stale_payloads(post) {
             let idx = o.w.total;
             o.impl_failures.push(json!({"index": idx, "history": hist, "ca": h, "op": op_desc, "class": {"object_for_removed_configuration": true}, "what": what}));
